@@ -764,7 +764,7 @@ func runC01(c *Ctx) {
 }
 
 // giant: a frame whose encoded size exceeds 4 GiB, so that a segment offset does not fit
-// the 32-bit header field (see RleFrameProofs: the round trip theorem carries the
+// the 32-bit header field (see RLE/RleProofs.v: the round trip theorem carries the
 // hypothesis "encoded length <= 2^32"). Needs ~25 GB of memory; only run on request
 // (VERIF_RLE_GIANT=1). Implementation-only oracle.
 func giant(c *Ctx) {
